@@ -62,3 +62,32 @@ TEXT["C07"] = {
              "model on messages produced by an independent Go encoder; the repo's literal test fixtures are proved to be encodings in the sense of the spec."),
     "note": ("Trusted: Lean kernel + 3 standard axioms; the hand transcription of the Kafka formats (Spec/Wire.lean); harness; owner updates compared as a sorted multiset per message. The tie is sampled."),
 }
+
+TEXT["C04"] = {
+    "design_ref": "DESIGN.md §4.4",
+    "technique": "Lean 4 theorems over the aggregation fold (for all partition lists and all orderings) + differential correspondence of real storage + real evaluator against the model",
+    "text": ("Proof: Props/C04.lean proves for every list of partition results and every ordering of it (Go map order): the group status is OK iff all partitions are OK, WARN iff the worst is WARN, "
+             "ERR iff any is stopped/stalled/rewound (status_*_iff); total lag is the uint64 sum (totalLag_sum/_exact); max-lag is a listed partition with maximal lag, absent iff no partitions; "
+             "count = number of partitions; completeness = (#partitions whose window is full)/count with 'full' tied to the C02 window shape (complete_fraction, partition_complete_iff_full); the "
+             "problems-only view is the filter of the full view with equal summary fields (filter_view); the evaluation never panics on C02-shaped windows (evaluateGroup_total). Tie: real storage + "
+             "real CachingEvaluator vs the compiled model on generated histories. A genuine defect (all-nil window counted as complete) was found this way and repaired (known_findings.json)."),
+    "note": ("Trusted: Lean kernel + 3 standard axioms; harness; float32 carried as exact pairs; max-lag ties compared by value. The tie is sampled."),
+}
+TEXT["C13"] = {
+    "design_ref": "DESIGN.md §4.13",
+    "technique": "Lean 4 invariant proofs over all evaluation histories and module configurations of a model of the incident bookkeeping + differential correspondence with recording modules",
+    "text": ("Proof: Props/C13.lean proves for every evaluation history of a group and every module configuration: from the first evaluation worse than OK up to and including the first OK again every "
+             "notification carries the same non-empty id and start (incident_identity); different incidents have different ids given non-repeating UUIDs (incidents_distinct); at the closing evaluation "
+             "each accepting send-close module gets exactly one notification, a close (exactly_one_close); a close is only ever sent after an open incident (no_close_without_incident); several "
+             "groups and clusters interleaved behave per group like that group's own history (run_projection). Tie: real checkAndSendResponseToModules/notifyModule vs the compiled model."),
+    "note": ("Trusted: Lean kernel + standard axioms; harness incl. its clock-freezing/time-shifting hook; UUID freshness assumed. Not modelled: group-list refresh mid-incident, concurrent responses for one group."),
+}
+TEXT["C14"] = {
+    "design_ref": "DESIGN.md §4.14",
+    "technique": "Lean 4 invariant proofs over all evaluation histories and all threshold/interval/send-once/send-close combinations + differential correspondence",
+    "text": ("Proof: Props/C14.lean proves: an open notification goes only to an accepting module at or above its threshold; within an incident two open notifications to a module are more than its send "
+             "interval apart; with send-once at most one per incident; and every incident is announced — at the first evaluation of an incident whose status reaches an accepting module's threshold that "
+             "module is notified, for the first and every later incident (every_incident_announced). The last theorem was false of the unchanged code (LastNotify survived incidents): the check found "
+             "it, the defect was repaired in /repo (fix: commit), the model is of the repaired code. Tie: real notifier code vs the compiled model over all option combinations."),
+    "note": ("Trusted: Lean kernel + standard axioms; harness incl. time shifting (interval boundaries approached to 8 ms, never compared exactly). Reading: send-interval applies within an incident."),
+}
